@@ -277,3 +277,100 @@ def archive_still_readable(path):
         return True
     except Exception:
         return False
+
+
+# ---- binary Excel (.xls) material ---------------------------------------------------------------
+XLS_FIELDS = ["branch_id", "customer_id", "first_name", "surname", "gender", "date_of_birth"]
+
+
+def xls_material():
+    """The repository's own small BIFF workbook (tests/data/valid_customers.xls) as bytes, or None if the tree has none.
+    No independent .xls producer exists in this sandbox, so byte-level damage is applied to this file."""
+    from mc import repo
+
+    path = os.path.join(repo.REPO, "tests", "data", "valid_customers.xls")
+    if not os.path.exists(path):
+        return None
+    with open(path, "rb") as stream:
+        return stream.read()
+
+
+def xls_region(content, offset):
+    """Name of the part of the OLE2 container an offset lies in (header, sector / short-sector allocation table, directory, other)."""
+    import struct
+
+    if offset < 512:
+        return "header"
+    sector_size = 1 << struct.unpack("<H", content[30:32])[0]
+    sat_count = struct.unpack("<I", content[44:48])[0]
+    regions = {sid: "sat" for sid in struct.unpack("<109i", content[76:512])[: min(sat_count, 109)] if sid >= 0}
+    for name, position in (("directory", 48), ("ssat", 60)):
+        sid = struct.unpack("<i", content[position:position + 4])[0]
+        if sid >= 0:
+            regions.setdefault(sid, name)
+    return regions.get((offset - 512) // sector_size, "other")
+
+
+def xls_cid():
+    rows = [["D", "Format", "Excel"], ["D", "Header", "1"]] + [["F", name] for name in XLS_FIELDS]
+    return harness.make_cid(rows)
+
+
+class Hang(BaseException):
+    """Not an Exception: handlers of the code under test ('except Exception') must not swallow the harness's alarm."""
+
+
+def xls_terminates(path, seconds=2):
+    """Does reading the workbook come to an end at all?  (xlrd 1.2 follows a cyclic sector chain of a damaged OLE2
+    container forever, growing a list on the way.)"""
+    import cutplace
+
+    def read():
+        try:
+            for _ in cutplace.rows(xls_cid(), path, on_error="raise"):
+                pass
+        except Exception:
+            pass
+        return True
+
+    try:
+        return with_time_limit(seconds, read)
+    except Hang:
+        return False
+
+
+def with_time_limit(seconds, function):
+    """Run function() in this (worker) process under an alarm; a call that does not return raises Hang."""
+    import signal
+
+    def on_alarm(signum, frame):
+        raise Hang("no result after %d s" % seconds)
+
+    previous = signal.signal(signal.SIGALRM, on_alarm)
+    signal.alarm(seconds)
+    try:
+        return function()
+    finally:
+        signal.alarm(0)
+        signal.signal(signal.SIGALRM, previous)
+
+
+import contextlib
+
+
+@contextlib.contextmanager
+def quiet_stdout():
+    """File descriptor 1 pointed at the null device for the duration (third-party code printing to the real stdout)."""
+    import sys
+
+    sys.stdout.flush()
+    saved = os.dup(1)
+    null = os.open(os.devnull, os.O_WRONLY)
+    try:
+        os.dup2(null, 1)
+        yield
+    finally:
+        sys.stdout.flush()
+        os.dup2(saved, 1)
+        os.close(saved)
+        os.close(null)
